@@ -326,7 +326,7 @@ def log(x):
 def log10(x):
     def f(v):
         if isinstance(v, Sx) and not v.is_const():
-            return alg.fn("log10", v)
+            return alg.log10(v)
         return _math.log10(float(v))
     return _map(f, x)
 
